@@ -152,6 +152,7 @@ impl Model {
         e.rmw.push((al.block, il.size(), Rmw::Sub, 1));
         al.owners -= 1;
         if al.owners == 0 {
+            e.rmw_optional.push(e.rmw.len() - 1);
             if let Ty::Slice(ids) = &al.ty {
                 for i in ids {
                     e.drops.push((5, *i));
